@@ -346,7 +346,32 @@ func collectChildUses(w *World, fi *FuncInfo, body ast.Node, roots map[types.Obj
 					uncond := true
 					if fd := fi.Decl; fd != nil {
 						for _, c := range pathConds(fd, call) {
-							if c.loop || c.text != "" {
+							if c.loop {
+								continue
+							}
+							if c.text != "" {
+								// a case clause inside the examined body is a condition, unless its switch refines
+								// the kind of the node itself
+								if c.clause != nil && c.clause.Pos() >= bodyPos && c.clause.End() <= bodyEnd {
+									if ts, ok := c.sw.(*ast.TypeSwitchStmt); ok {
+										var subj ast.Expr
+										switch a := ts.Assign.(type) {
+										case *ast.AssignStmt:
+											if ta, ok := a.Rhs[0].(*ast.TypeAssertExpr); ok {
+												subj = ta.X
+											}
+										case *ast.ExprStmt:
+											if ta, ok := a.X.(*ast.TypeAssertExpr); ok {
+												subj = ta.X
+											}
+										}
+										if subj != nil && slotPath(info, subj, roots) != "$" {
+											uncond = false
+										}
+									} else {
+										uncond = false
+									}
+								}
 								continue
 							}
 							s := es(c.expr)
